@@ -785,6 +785,13 @@ func (m *mappedFile) newCounter(name string) (v *atomic.Uint64, m1 *mappedFile, 
 }
 
 func (m *mappedFile) extend(end uint32) (*mappedFile, error) {
+	if rounded := round(end, pageSize); rounded < end {
+		// The page rounding wrapped around: the allocation limit read from
+		// the file is corrupt. (Without this check the caller's allocation
+		// loop never terminates: nothing is written, the "not extended" test
+		// below is vacuous, and the same limit is read again.)
+		return nil, errCorrupt
+	}
 	end = round(end, pageSize)
 	info, err := m.f.Stat()
 	if err != nil {
